@@ -23,6 +23,30 @@ def DirSnapshot.WF (d : DirSnapshot) : Prop :=
 def DirSnapshot.NoCrash (d : DirSnapshot) : Prop :=
   ∀ e ∈ d, ∀ cls, e.2.2 ≠ .crash cls
 
+instance (p : Parse) : Decidable p.WF := by
+  cases p <;> simp only [Parse.WF] <;> infer_instance
+
+instance (d : DirSnapshot) : Decidable d.WF := by
+  simp only [DirSnapshot.WF]; infer_instance
+
+def Parse.isCrash : Parse → Bool
+  | .crash _ => true
+  | _ => false
+
+theorem DirSnapshot.noCrash_iff (d : DirSnapshot) : d.NoCrash ↔ d.all (fun e => !e.2.2.isCrash) = true := by
+  simp only [DirSnapshot.NoCrash, List.all_eq_true, Bool.not_eq_true']
+  constructor
+  · intro h e he
+    cases hp : e.2.2 with
+    | crash c => exact absurd hp (h e he c)
+    | ok d => rfl
+    | rejected => rfl
+  · intro h e he cls hc
+    have := h e he
+    rw [hc] at this; cases this
+
+instance (d : DirSnapshot) : Decidable d.NoCrash := decidable_of_iff _ (DirSnapshot.noCrash_iff d).symm
+
 /-! ### the specification state: what was loaded from where, most recent first -/
 
 structure SpecState where
